@@ -8,6 +8,7 @@ import (
 	"encoding/json"
 	"fmt"
 	"sort"
+	"strings"
 	"testing"
 
 	"github.com/trustbloc/sidetree-core-go/pkg/api/operation"
@@ -18,6 +19,7 @@ import (
 	"verifharness/kit/asm"
 	"verifharness/kit/ev"
 	"verifharness/kit/gen"
+	"verifharness/kit/keys"
 	"verifharness/kit/refjcs"
 	"verifharness/kit/res"
 	"verifharness/kit/wire"
@@ -37,6 +39,11 @@ type Case struct {
 	// request that cannot be parsed, so that the handler rejects it as a whole. Its outcome is not judged (it must
 	// not panic); the batch under test comes afterwards, as the retry on a real node would.
 	Poison []gen.QOp `json:"poison,omitempty"`
+	// Proportional: the limits stand in the proportion of the Sidetree defaults - the batch holds exactly the maximum
+	// operation count, the chunk file limit is count x maximum delta size (decompression factor 3) - and MaxDelta is the
+	// maximum delta size (0 = the generous base parameters).
+	Proportional bool `json:"proportional,omitempty"`
+	MaxDelta     uint `json:"maxDelta,omitempty"`
 }
 
 func init() {
@@ -76,6 +83,11 @@ var typeRank = map[string]int{"create": 0, "recover": 1, "update": 2, "deactivat
 func evalCase(c *Case) (string, string) {
 	p := wire.BaseProtocol()
 	p.MultihashAlgorithms = []uint{uint(c.Code)}
+	if c.Proportional {
+		p.MaxOperationCount = uint(len(c.Ops))
+		p.MaxDeltaSize = c.MaxDelta
+		p.MaxChunkFileSize = uint(len(c.Ops)) * c.MaxDelta
+	}
 	cas := wire.NewMemCAS()
 	v := wire.Build(p, wire.Deps{CAS: cas, ParserOpts: []operationparser.Option{operationparser.WithAnchorTimeValidator(expiring{})}})
 	var queued []*operation.QueuedOperation
@@ -259,6 +271,55 @@ func TestBatchRoundTrip(t *testing.T) {
 		})
 		if kind != "" {
 			ev.Fail(t, chk, kind, kind, c, "%s", msg)
+		}
+	})
+}
+
+// ---- full batches of full-size deltas under limits in the usual proportion -------------------------------
+
+const chkFull = "full-batch-of-full-size-deltas"
+
+func init() { ev.RegisterReplay(chkFull, replay) }
+
+// padChars: characters whose spelling in a JSON text depends on who writes it (one byte or a six-byte escape for the
+// first three, three bytes or an escape for the line separators), next to plain ones.
+var padChars = []string{"<", ">", "&", "\u2028", "\u2029", "a", "\"", "\\", "\u00e9", "\u20ac", "\U0001F600", "\x01", "/"}
+
+func TestFullBatches(t *testing.T) {
+	ev.Rule(chkFull, "rapid: a batch of exactly MaxOperationCount (5-24) valid creates for as many DIDs whose deltas are padded (a JSON-patch string value of one repeated character: '<', '>', '&', U+2028, U+2029, a letter, a quote, a backslash, non-ASCII, a control character, '/') to within 0-40 bytes of the maximum delta size (600-1500, measured - as the protocol does - on the canonical form), under limits in the proportion of the Sidetree defaults: chunk file limit = count x maximum delta size, decompression factor 3; oracle: the same as for every batch - the files written by the real OperationHandler read back through the real OperationProvider as exactly that batch; every case non-trivial")
+	ev.Rapid(t, chkFull, 60, 600, func(t *rapid.T) {
+		code := rapid.SampledFrom([]uint64{asm.SHA256, asm.SHA512}).Draw(t, "hash")
+		n := rapid.IntRange(5, 24).Draw(t, "count")
+		maxDelta := rapid.IntRange(600, 1500).Draw(t, "maxDeltaSize")
+		c := &Case{Code: code, Proportional: true, MaxDelta: uint(maxDelta)}
+		padChar := rapid.SampledFrom(padChars).Draw(t, "padChar")
+		for i := 0; i < n; i++ {
+			ch := padChar
+			if rapid.IntRange(0, 3).Draw(t, "mixedChars") == 0 {
+				ch = rapid.SampledFrom(padChars).Draw(t, "padCharOfThisOne")
+			}
+			slack := rapid.IntRange(0, 40).Draw(t, "slack")
+			rec, upd := keys.Get(keys.Ed25519, "c13/full", 2*i), keys.Get(keys.Ed25519, "c13/full", 2*i+1)
+			mk := func(k int) *asm.Create {
+				patches := []interface{}{map[string]interface{}{"action": "ietf-json-patch", "patches": []interface{}{map[string]interface{}{"op": "add", "path": "/pad", "value": strings.Repeat(ch, k)}}}}
+				return &asm.Create{Code: code, RecoveryCommit: asm.Commit(rec, code), Delta: asm.Delta(asm.Commit(upd, code), patches)}
+			}
+			size := func(k int) int { return len(refjcs.MustCanonicalGo(mk(k).Delta)) }
+			per := size(2) - size(1)
+			k := (maxDelta - slack - size(0)) / per
+			for k > 0 && size(k) > maxDelta {
+				k--
+			}
+			cr := mk(k)
+			c.Ops = append(c.Ops, gen.QOp{Type: "create", Suffix: cr.Suffix(), Request: cr.Bytes(), DID: i})
+		}
+		kind, msg := evalCase(c)
+		ev.Record(chkFull, true, ev.Hash(c), "pad:"+fmt.Sprintf("%q", padChar), fmt.Sprintf("count:%d", n/5*5))
+		ev.SampleFn(chkFull, func() interface{} {
+			return map[string]interface{}{"count": n, "maxDeltaSize": maxDelta, "padChar": padChar}
+		})
+		if kind != "" {
+			ev.Fail(t, chkFull, kind, kind+"/full-batch", c, "%s", msg)
 		}
 	})
 }
